@@ -425,6 +425,7 @@ pub fn table(thorough: bool) -> Vec<Row> {
     limb2!("Limb:ct_gt", |a, b| Limb(a.ct_gt(&b).unwrap_u8() as u64));
     limb2!("Limb:Ord::cmp", |a, b| Limb(Ord::cmp(&a, &b) as i8 as u64));
     limb2!("Limb:PartialEq::eq", |a, b| Limb((a == b) as u64));
+    limb2!("Limb:PartialOrd::lt/ge", |a, b| Limb((a < b) as u64 | ((a >= b) as u64) << 1));
     limb2!("Limb::is_odd", |a, _b| Limb(a.is_odd().unwrap_u8() as u64));
     limb2!("Limb:Zero::is_zero", |a, _b| Limb(Zero::is_zero(&a).unwrap_u8() as u64));
     limb2!("Limb::conditional_select", |a, b| Limb::conditional_select(&a, &b, Choice::from((a.0 & 1) as u8)));
@@ -493,6 +494,7 @@ pub fn table(thorough: bool) -> Vec<Row> {
     ct!(r; "Uint:Ord::cmp"; s=2; |x| { oord(0, Ord::cmp(&x.a, &x.b)); });
     ct!(r; "Uint:PartialEq::eq"; s=2; |x| { sink(0, (x.a == x.b) as u64); });
     ct!(r; "Uint:PartialOrd::lt"; s=2; |x| { sink(0, (x.a < x.b) as u64); });
+    ct!(r; "Uint:PartialOrd::le/gt/ge/partial_cmp"; s=2; |x| { sink(0, (x.a <= x.b) as u64); sink(1, (x.a > x.b) as u64); sink(2, (x.a >= x.b) as u64); sink(3, PartialOrd::partial_cmp(&x.a, &x.b).map(|o| o as i8 as u64).unwrap_or(9)); });
     ct!(r; "Uint:Integer::is_odd"; s=1; |x| { och(0, Integer::is_odd(&x.a)); });
     ct!(r; "Uint:Zero::is_zero"; s=1; |x| { och(0, Zero::is_zero(&x.a)); });
     ct!(r; "Uint::conditional_select"; s=3; |x| { ou(0, &U::conditional_select(&x.a, &x.b, Choice::from((x.c.as_words()[0] & 1) as u8))); });
@@ -565,6 +567,9 @@ pub fn table(thorough: bool) -> Vec<Row> {
     int_ct!("Int::new_from_abs_sign", s=2, p_none, |a, b, x| { ocoi(0, I::new_from_abs_sign(x.a, x.b.is_odd().into())); });
     int_ct!("Int:ct_eq/ct_lt/ct_gt", s=2, p_none, |a, b, x| { och(0, a.ct_eq(&b)); och(1, a.ct_lt(&b)); och(2, a.ct_gt(&b)); });
     int_ct!("Int:Ord::cmp", s=2, p_none, |a, b, x| { oord(0, Ord::cmp(&a, &b)); });
+    int_ct!("Int:PartialOrd::lt/le/gt/ge", s=2, p_none, |a, b, x| { sink(0, (a < b) as u64); sink(1, (a <= b) as u64); sink(2, (a > b) as u64); sink(3, (a >= b) as u64); });
+    int_ct!("Int:PartialOrd::partial_cmp", s=2, p_none, |a, b, x| { sink(0, PartialOrd::partial_cmp(&a, &b).map(|o| o as i8 as u64).unwrap_or(9)); });
+    int_ct!("Int:PartialEq::eq", s=2, p_none, |a, b, x| { sink(0, (a == b) as u64); });
     int_ct!("Int::conditional_select", s=2, p_none, |a, b, x| { oi(0, &I::conditional_select(&a, &b, Choice::from((x.a.as_words()[0] & 1) as u8))); });
     int_ct!("Int::checked_div_rem", s=2, p_nz_b, |a, b, x| { let (q, rm) = a.checked_div_rem(&NonZero::new(b).unwrap()); ocoi(0, q); oi(2 * N, &rm); });
     int_ct!("Int::checked_div", s=2, p_none, |a, b, x| { octoi(0, a.checked_div(&b)); });
